@@ -277,13 +277,26 @@ def h_reallocate(ctx, lmax=2 ** 61):
             ent = s.heap[key]
             L2, E2, B2, aid = check_ri_post(m, s, ent, ctx, lmax * 2, where)
             m.oblige(s, z3.And(L2 == L * bv(2), E2 == E, B2 == B, z3.BoolVal(aid != "A0")), "post:doubling", where)
-            w = s.ghost["writes"]
-            m.oblige(s, z3.BoolVal(len(w) == 2), "post:two-copies", where)
-            (d1, s1), (d2, s2) = w
-            m.oblige(s, z3.And(z3.BoolVal(d1.alloc == aid and s1.alloc == "A0"), d1.off == bv(0), s1.off == bv(0),
-                               d1.len == bv(ctx.ES) * B), "post:bounds-copied", where)
-            m.oblige(s, z3.And(z3.BoolVal(d2.alloc == aid and s2.alloc == "A0"), d2.off == L2 - E, s2.off == L - E,
-                               d2.len == E), "post:bytes-copied-to-back", where)
+            w = list(s.ghost["writes"])
+            m.oblige(s, z3.BoolVal(len(w) <= 2), "post:at-most-two-copies", where)
+
+            def is_bounds(dw, sw):
+                return z3.And(z3.BoolVal(dw.alloc == aid and sw.alloc == "A0"), dw.off == bv(0), sw.off == bv(0), dw.len == bv(ctx.ES) * B)
+
+            def is_bytes(dw, sw):
+                return z3.And(z3.BoolVal(dw.alloc == aid and sw.alloc == "A0"), dw.off == L2 - E, sw.off == L - E, dw.len == E)
+            if len(w) == 2:
+                m.oblige(s, is_bounds(*w[0]), "post:bounds-copied", where)
+                m.oblige(s, is_bytes(*w[1]), "post:bytes-copied-to-back", where)
+            elif len(w) == 1:
+                # one copy may be skipped only when its region is empty
+                if not m.feasible(s, z3.Not(is_bounds(*w[0]))):
+                    m.oblige(s, E == bv(0), "post:bytes-copy-skipped-only-when-empty", where)
+                else:
+                    m.oblige(s, is_bytes(*w[0]), "post:bytes-copied-to-back", where)
+                    m.oblige(s, B == bv(0), "post:bounds-copy-skipped-only-when-empty", where)
+            else:
+                m.oblige(s, z3.And(E == bv(0), B == bv(0)), "post:copies-skipped-only-when-buffer-empty", where)
             covers["returned"] = True
             if m.feasible(s, z3.And(E != bv(0), B != bv(0))):
                 covers["nonempty"] = True
